@@ -1,6 +1,8 @@
 //verif:pkg pkg/core
 //verif:use store,corehelp
 //verif:assume repository r with three (thorough: four) bundle ids in id order, each absent / committed (descriptor + 2 file lists) / leftover of an interrupted upload (file lists, no descriptor); a semver-like label v1.0.0 and a plain label latest, each absent or pointing at one of the committed bundles; retain-N 1..2 (thorough 1..3); retain-tags in {none, all labels, semver labels, both options together}; a second repository r2 whose name extends r's; stores are the in-memory model (deleting a missing key is an error, as on GCS; thorough: also the silent variant)
+//verif:assume squash under faults: repository r with three committed bundles (two file lists each), a leftover of an interrupted upload after them, label v1.0.0 on the first and latest on the second bundle; retain 1, with or without retained labels; one transient fault at a solver-chosen store call of the squash (listings and reads included)
+//verif:cover VerifC10SquashFaults squash-failed squash-survived-the-fault
 //verif:cover VerifC10Squash both-tag-options leftover-newer-than-latest-commit label-retained label-removed nothing-to-squash
 package core
 
@@ -138,4 +140,64 @@ func VerifC10Squash() {
 	// observers agree
 	got, e := ListBundles("r", stores)
 	vAssert(e == nil && len(got) == len(keep), "listing-after-squash-shows-exactly-the-kept-bundles")
+}
+
+// VerifC10SquashFaults: one transient store fault at any store call of a squash: whatever it reports, no bundle it
+// was to keep loses anything and the most recent committed bundle survives; a label is only removed together with its bundle (squash tolerates
+// failed deletions, so exactness under faults is not required).
+func VerifC10SquashFaults() {
+	vBudget(300000000)
+	vUnwind(50000)
+	meta := newVStore("meta")
+	vmeta := newVStore("vmeta")
+	stores := vCtxStoresAll(meta, vmeta, newVStore("blob"))
+	vPutRepo(meta, "r")
+	committed := []string{vB1, vB2, vB3}
+	for _, id := range committed {
+		vPutBundle(meta, "r", id, 2, true)
+	}
+	vPutBundle(meta, "r", "1c2PPkGSFwzlGuXIzGvRlK5XYy4", 2, false) // leftover of an interrupted upload, newest id
+	labels := map[string]string{"v1.0.0": vB1, "latest": vB2}
+	for l, b := range labels {
+		vmeta.putRaw(model.GetArchivePathToLabel("r", l), vYaml(model.LabelDescriptor{Name: l, BundleID: b}))
+	}
+	keep := map[string]bool{vB3: true}
+	opts := []Option{WithRetainNLatest(1)}
+	if vChoose("retainTags", 2) == 1 {
+		opts = append(opts, WithRetainTags(true))
+		keep[vB1], keep[vB2] = true, true
+	}
+	beforeM, beforeV := vSnapshot(meta), vSnapshot(vmeta)
+	cr := &vCrasher{stores: []*vStore{meta, vmeta}, allCalls: true, transient: true}
+	cr.crashAt = vInt("faultAt", 1, 40)
+	cr.install()
+	err := RepoSquash(stores, "r", opts...)
+	cr.revive()
+	vAssume(cr.crashed)
+	for _, id := range committed {
+		if keep[id] {
+			for _, k := range []string{model.GetArchivePathToBundle("r", id), model.GetArchivePathToBundleFileList("r", id, 0), model.GetArchivePathToBundleFileList("r", id, 1)} {
+				nv, ok := meta.data[k]
+				vAssert(ok && string(nv) == beforeM[k], "kept-bundle-metadata-unchanged")
+			}
+		}
+	}
+	for l, b := range labels {
+		if keep[b] {
+			nv, has := vmeta.data[model.GetArchivePathToLabel("r", l)]
+			vAssert(has && string(nv) == beforeV[model.GetArchivePathToLabel("r", l)], "label-of-kept-bundle-intact")
+		}
+	}
+	if err != nil {
+		vCover("squash-failed")
+		return
+	}
+	vCover("squash-survived-the-fault")
+	// squash tolerates failed deletions (it asks DeleteBundle to ignore them and a later squash finishes the job),
+	// so exactness is not required here; what it removed must still be consistent: a label goes only with its bundle
+	for l, b := range labels {
+		_, hasLabel := vmeta.data[model.GetArchivePathToLabel("r", l)]
+		_, hasBundle := meta.data[model.GetArchivePathToBundle("r", b)]
+		vAssert(hasLabel || !hasBundle, "a-label-is-removed-only-with-its-bundle")
+	}
 }
